@@ -7,6 +7,9 @@ import (
 	"strconv"
 
 	_ "verif/checks/all"
+	"verif/internal/refcrypto"
+	"verif/internal/reflds"
+	"verif/internal/refpki"
 	"verif/internal/vc"
 )
 
@@ -16,6 +19,19 @@ func main() {
 		os.Exit(2)
 	}
 	switch os.Args[1] {
+	case "setup":
+		// generate the RSA key cache and run the reference self-tests (harness errors, never violations)
+		if err := refpki.EnsureKeys(); err != nil {
+			fmt.Fprintln(os.Stderr, "refpki.EnsureKeys:", err)
+			os.Exit(2)
+		}
+		for name, f := range map[string]func() error{"refcrypto": refcrypto.SelfTest, "refpki": refpki.SelfTest, "reflds": reflds.SelfTest} {
+			if err := f(); err != nil {
+				fmt.Fprintln(os.Stderr, "self-test", name, "failed:", err)
+				os.Exit(2)
+			}
+		}
+		fmt.Println("setup ok")
 	case "list":
 		for _, id := range vc.IDs() {
 			fmt.Println(id)
